@@ -230,13 +230,14 @@ pub fn plant(base: &LedgerCase, it: &Intent) -> Option<RejectCase> {
         let pos_in_sec = rows[..planted_ix].iter().filter(|r| r.sec == sec).count();
         let m = model_for(&sec_rows, base.opening_for(&sec));
         let computed = m.rows.iter().find(|d| d.src == Some(pos_in_sec)).map(|d| d.computed_sfl.clone())?;
-        let off = crate::gen::pick(it.sfl, &["-0.0011", "-0.002", "-0.01", "-5", "0.0011", "0.01"]);
-        let v = computed.add(&Rat::parse(off).unwrap());
+        let off = crate::gen::pick(it.sfl, &["-0.0011", "-0.002", "-0.01", "-5", "0.0011", "0.01", "=0", "=0.00"]);
+        // "=0": the row declares that nothing is superficial although something is
+        let v = if off.starts_with('=') { Rat::zero() } else { computed.add(&Rat::parse(off).unwrap()) };
         let v = if v.is_pos() { computed.sub(&Rat::parse(off).unwrap()) } else { v };
         // exact decimal needed: round computed to 10 dp first
         let v10 = v.floor_dp(10);
         if computed.sub(&v10).abs().le(&Rat::ratio(1, 1000)) { return None; }
-        rows[planted_ix].sfl = v10.to_decimal_string(10).unwrap();
+        rows[planted_ix].sfl = if off.starts_with('=') { off[1..].to_string() } else { v10.to_decimal_string(10).unwrap() };
     }
     Some(RejectCase { ledger: LedgerCase { rows, opening: base.opening.clone(), tags: base.tags.clone() }, sec, cause: cause.to_string(), planted_ix })
 }
